@@ -152,8 +152,11 @@ class C04(flow.Spec):
             else:
                 ops.append([0, pg, frame(), flags() | P])
         last0 = 0
-        if rng.random() < 0.15:
-            last0 = rng.choice([pc.TEMP - 4096 * rng.randrange(0, 600), 1 << 30, 4096 * rng.randrange(1, 1 << 20)])
+        if rng.random() < 0.2:
+            last0 = rng.choice([pc.TEMP - 4096 * rng.randrange(0, 600), 1 << 30, 4096 * rng.randrange(1, 1 << 20),
+                                # just above a page-table boundary: the next region straddles two last-level tables
+                                pc.TEMP - 4096 * (511 - rng.randrange(0, 4)), pc.TEMP - 4096 * (511 - rng.randrange(0, 4)),
+                                ((rng.randrange(1, 1 << 20) << 9) + rng.randrange(1, 5)) << 12])
         region_pages = []
         cur = (last0 or pc.TEMP) >> 12
         for o in ops:
